@@ -38,14 +38,17 @@ def main():
     chk.run_contracts("contracts.c19", fallback={"*": _c19.bounded(chk, "native-contracts-on-scripted-histories")})
     chk.run_contracts("contracts.c03", names=["BaseBackend._solve_euler[dde]", "BaseBackend._solve_heun[dde]"],
                       fallback={"*": solver_fallback(chk)})
-    driver.run_family(
-        chk, "delayed-terms-vs-history", families(chk.tier, chk.seed), cases.case_fn, site="C10/dde",
+    _cases = families(chk.tier, chk.seed)
+    _results = driver.run_family(
+        chk, "delayed-terms-vs-history", _cases, cases.case_fn, site="C10/dde",
         rule="models with past(x, tau): one delay on the first variable, on the second variable, two delays on two variables, one "
              "variable at two delays, a product with a delayed factor, a negative coefficient; delayed edges (two delays from one "
              "source; a delayed and an undelayed sibling; a sibling delay below the step size; vectorize off and on) under an adaptive solver; (1) the compiled function called with a hand-made smooth history H(t): derivative == "
              "spec with component x of H(t - tau), t in time units for adaptive AND fixed-step code (step counter * dt); (2) run "
              "(scipy; thorough: euler, heun) against an RK4 method-of-steps reference with constant pre-history; distinct = (model, kind, solver)",
         sample_of=lambda c: {k: v for k, v in c.items() if k != "features"})
+    driver.run_sequences(chk, "delayed-terms-vs-history-in-sequence", _cases, _results, cases.case_fn, site="C10/dde",
+                         limit=20 if chk.tier == "quick" else 120, seed=chk.seed)
     rc = chk.finish(
         explanation="Deductive core: DDEHistory returns the initial state before the start and the linear interpolant of the recorded "
                     "trajectory afterwards (class invariant + method contracts), and the fixed-step loops append ((i+1)*dt, y_{i+1}) "
